@@ -428,6 +428,35 @@ func (m *Machine) callBuiltin(caller *frame, b *ssa.Builtin, args []Value, pos t
 			}
 		}
 		return r
+	case "SliceData": // unsafe.SliceData: pointer to the first element of the backing window
+		s := args[0].(SliceV)
+		if s.Arr == nil {
+			return PtrV{}
+		}
+		return PtrV{s.Arr, []int{s.Off}}
+	case "String": // unsafe.String(ptr *byte, len): the bytes ptr[0:len] as a string (strings.Builder.String)
+		p := args[0].(PtrV)
+		n, ok := args[1].(*sym.Term)
+		if !ok || !n.IsConst() {
+			m.unsupported("unsafe.String with symbolic length")
+		}
+		ln := int(n.C)
+		if ln == 0 {
+			return StrV{Conc: true}
+		}
+		if p.Obj == nil || len(p.Path) != 1 {
+			m.unsupported("unsafe.String of a pointer that is not a slice element")
+		}
+		arr, ok := p.Obj.Val.(ArrayV)
+		if !ok || p.Path[0]+ln > len(arr) {
+			m.unsupported("unsafe.String beyond its backing array")
+		}
+		bs := make([]*sym.Term, ln)
+		for i := 0; i < ln; i++ {
+			m.onAccess(PtrV{p.Obj, []int{p.Path[0] + i}}, false)
+			bs[i] = arr[p.Path[0]+i].(*sym.Term)
+		}
+		return StrV{B: bs}
 	case "ssa:wrapnilchk":
 		p := args[0].(PtrV)
 		if p.Obj == nil {
